@@ -131,6 +131,14 @@ UpsertNothing(RowSet) == \E r \in RowSet : UpsertNothingDefined(rows, r) /\
                              Stmt([k |-> "upsert", row |-> r, act |-> "nothing", tgt |-> "-", c |-> "-", v |-> 0], DoUpsertNothing(rows, r))
 UpsertUpdate(RowSet, Sets) == \E r \in RowSet, tgt \in {"id", "a"}, cv \in Sets : RowOk(r) /\
                              Stmt([k |-> "upsert", row |-> r, act |-> "update", tgt |-> tgt, c |-> cv[1], v |-> cv[2]], DoUpsertUpdate(rows, r, tgt, cv[1], cv[2]))
+\* statements that are wrong whatever the table holds (C06: type error, missing object, wrong arity, unknown function,
+\* also as the SECOND row of a VALUES list and in a multi-row UPDATE): refused, and nothing changes. `id` is an id no row
+\* has, so that the rows such a statement names would be acceptable if the statement were not wrong.
+BadKinds == {"unknown_table", "unknown_column_in_list", "unknown_column_in_set", "unknown_column_in_where", "too_many_values",
+             "text_into_int", "second_row_text_into_int", "second_row_too_many_values", "second_row_unknown_function",
+             "update_all_text_into_int", "update_all_unknown_function", "delete_where_unknown_function", "not_sql"}
+FreeIds == Ids \ {r[1] : r \in rows}
+Bad == \E b \in BadKinds, i \in FreeIds : Stmt([k |-> "bad", b |-> b, id |-> i], Res(FALSE, 0, rows))
 Truncate == txn = <<>> /\ Stmt([k |-> "truncate"], Res(TRUE, Cardinality(rows), {}))
 
 \* stuttering steps on the logical state (C04, C42)
